@@ -600,4 +600,104 @@ theorem write_order_stream_exact (m0 : Meta) (rest : List Meta)
 example : writeOrder [⟨1, ⟨8, 40⟩, ⟨16, 16⟩⟩, ⟨1, ⟨4, 20⟩, ⟨16, 16⟩⟩] =
     [(1, 0, 0, 0), (1, 0, 0, 1), (0, 0, 0, 0), (0, 0, 0, 1), (0, 0, 0, 2)] := by decide
 
+/-! ## `_compress_tiles`: which source block and which band feed a tile -/
+
+theorem bandOffset_replicate_one (ns k : Nat) (hk : k ≤ ns) : bandOffset (List.replicate ns 1) k = k := by
+  unfold bandOffset
+  rw [List.take_replicate, Nat.min_eq_left hk]
+  simp
+
+/-- `compress_tile_picks_own_band`: for EVERY band count and EVERY chunking of the band axis of a band-first source
+(all bands in one chunk, one band per chunk, groups of 2, irregular …) the tile of plane `s` is cut from source band `s`:
+the block named for it exists after the re-chunk, and block offset + plane picked inside the block is `s`. -/
+theorem compress_tile_picks_own_band (ns : Nat) (bandChunks : List Nat) (s : Nat) (hs : s < ns) :
+    sourceBandOfTile ns bandChunks s = some s := by
+  unfold sourceBandOfTile compressChunks blockName pickPlane
+  by_cases h1 : bandChunks.length = 1
+  · simp only [h1, if_true]
+    simp only [show ¬ (3 = 2) by decide, if_false, List.getElem?_cons_zero]
+    by_cases hn : ns = 1
+    · subst hn
+      have : s = 0 := by omega
+      subst this
+      simp [bandOffset]
+    · simp [hn, bandOffset]
+  · simp only [h1, if_false, show ¬ (3 = 2) by decide]
+    have hget : (List.replicate ns 1)[s]? = some 1 := by
+      rw [List.getElem?_replicate]; simp [hs]
+    simp only [hget]
+    simp [bandOffset_replicate_one ns s (Nat.le_of_lt hs)]
+
+/-- what the re-chunk targets: band-last and 2-D sources get ALL samples of a pixel in one chunk, a band-first source
+keeps a single band chunk and is otherwise split to one band per chunk; spatially always the tile -/
+theorem compress_chunks_spec (ax : Axis) (ndim ns : Nat) (bc : List Nat) (tile : YX) :
+    (compressChunks ax ndim ns bc tile).tile = tile ∧
+    ((compressChunks ax ndim ns bc tile).band = [] ∨ (compressChunks ax ndim ns bc tile).band = [ns] ∨
+      (compressChunks ax ndim ns bc tile).band = List.replicate ns 1) ∧
+    (ax = .SYX → ndim = 3 → bc.length ≠ 1 → (compressChunks ax ndim ns bc tile).band = List.replicate ns 1) := by
+  unfold compressChunks
+  cases ax <;> simp
+  · by_cases h2 : ndim = 2 <;> by_cases h1 : bc.length = 1 <;> simp [h2, h1]
+
+/-- the C05-10 class, concretely: 4 bands chunked 2 + 2, and 3 bands chunked (2, 1) -/
+example : sourceBandOfTile 4 [2, 2] 3 = some 3 ∧ sourceBandOfTile 3 [2, 1] 2 = some 2 ∧
+    sourceBandOfTile 5 [5] 4 = some 4 ∧ sourceBandOfTile 1 [1] 0 = some 0 := by decide
+
+/-! ## grouping of the bags handed to the multi-part writer -/
+
+/-- `bag_groups_permutation`: concatenating the first four reversed bags and passing the rest one by one streams every
+bag EXACTLY once, in reversed order — whatever the number of bags -/
+theorem bag_groups_flatten {β : Type} (tiles : List β) : (bagGroups tiles).flatten = tiles.reverse := by
+  unfold bagGroups
+  have hsing : ∀ l : List β, (l.map fun b => [b]).flatten = l := by
+    intro l; induction l with
+    | nil => rfl
+    | cons a t ih => simp [ih]
+  simp only []
+  split
+  · simp only [List.flatten_cons, hsing, List.take_append_drop]
+  · exact hsing _
+
+theorem bag_groups_perm {β : Type} (tiles : List β) : (bagGroups tiles).flatten.Perm tiles := by
+  rw [bag_groups_flatten]; exact List.reverse_perm tiles
+
+/-- at most one group has more than one member, and it is the first -/
+theorem bag_groups_shape {β : Type} (tiles : List β) :
+    (tiles.length ≤ 4 → bagGroups tiles = tiles.reverse.map fun b => [b]) ∧
+    (4 < tiles.length → ∃ rest, bagGroups tiles = tiles.reverse.take 4 :: rest ∧ ∀ g ∈ rest, g.length = 1) := by
+  unfold bagGroups
+  simp only []
+  constructor
+  · intro h; rw [if_neg (by simpa using Nat.not_lt.mpr h)]
+  · intro h
+    rw [if_pos (by simpa using h)]
+    refine ⟨_, rfl, ?_⟩
+    intro g hg
+    obtain ⟨b, _, rfl⟩ := List.mem_map.mp hg
+    rfl
+
+example : bagGroups [0, 1, 2, 3, 4, 5] = [[5, 4, 3, 2], [1], [0]] := by decide
+
+/-! ## size of the patched header -/
+
+/-- `patched_header_size`: without statistics the header keeps its length; with statistics it grows by the XML + NUL
+unless the XML fits into the old tag value; every tile offset is shifted by exactly that final size -/
+theorem patched_header_size (h0 oldCount xmlLen : Nat) :
+    patchedHdrSize h0 none = h0 ∧
+    (oldCount ≤ xmlLen → patchedHdrSize h0 (some (oldCount, xmlLen)) = h0 + xmlLen + 1) ∧
+    (xmlLen + 1 ≤ oldCount → patchedHdrSize h0 (some (oldCount, xmlLen)) = h0) ∧
+    h0 ≤ patchedHdrSize h0 (some (oldCount, xmlLen)) := by
+  simp only [patchedHdrSize, statsGrow]
+  refine ⟨trivial, ?_, ?_, ?_⟩
+  · intro h; rw [if_neg (by omega)]; omega
+  · intro h; rw [if_pos h]; rfl
+  · split <;> omega
+
+/-- the table written with statistics is the plain table shifted by the FINAL header size (stats XML included) -/
+theorem patch_hdr_stats_exact (ms : List Meta) (tiles : List Obs) (h0 : Nat) (stats : Option (Nat × Nat))
+    (info info0 : TileInfo) (hinfo0 : extractTileInfo ms tiles 0 = .ok info0)
+    (hinfo : patchHdrStats ms tiles h0 stats = .ok info) (l f o n : Nat) (hl : look info0 l f = some (o, n)) :
+    look info l f = some (o + patchedHdrSize h0 stats, n) :=
+  patch_hdr_exact ms tiles _ info info0 hinfo0 hinfo l f o n hl
+
 end OdcGeo.C05
